@@ -7,7 +7,7 @@ and axis lengths are sampled), and exactly at the sampled dyadic point.  The sam
 semantics against the real un-simplified evaluation (spec-eval correspondence).  Termination: every
 simplification runs under a watchdog; 'caught in a loop' and hangs are failing inputs of the termination clause.
 """
-import base64, pickle, numpy, collections
+import base64, pickle, numpy, collections, json
 from nutils import evaluable as ev, types
 from . import genexpr, ser, shrink, exprcheck as X
 from .common import Infra
@@ -159,8 +159,8 @@ def run(c):
                       'parametricity of the Lean evaluator in its scalar carrier (equal normal forms => equal values for all real arguments) relies on Props/Poly soundness of the polynomial operations; the evaluator itself is executed, not kernel-reduced',
                       'a symbolic "differ" answer is never a verdict by itself: it falls back to exact comparison at the sampled point']
     broken = c.build_and_audit(extra_props=['Poly', 'C01Driver'])
-    N = 120 if c.tier == 'quick' else 2500
-    maxdepth = 4 if c.tier == 'quick' else 6
+    N = 120 if c.tier == 'quick' else 600
+    maxdepth = 4   # deeper random trees make single symbolic Lean evaluations explode; depth is explored by the enumeration streams
 
     # ---- open known findings: re-run their recorded inputs
     kin = known_inputs()
@@ -197,14 +197,39 @@ def run(c):
             outcome['original-not-finite-or-undefined'] += 1
             continue
         float_args = {k: v for k, v in args.items() if numpy.asarray(v).dtype.kind == 'f'}
+        nsym = sum(int(numpy.prod(v.shape)) for v in float_args.values())
+        heavy = nsym > 40 or any(type(n).__name__ in ('Inverse', 'Determinant') for n in shrink.all_nodes(e))
+        if heavy:
+            # a symbolic evaluation with this many unknowns (or a symbolic determinant / inverse) can take minutes in the
+            # Lean evaluator: decide these trees exactly at the sample point only (counted)
+            outcome['symbolic-skipped-too-large'] += 1
         try:
             r1, _ = ser.request([e, s], args, cmp=[(0, 1)])
-            r2, _ = ser.request([e, s], {k: v for k, v in args.items() if k not in float_args}, symbolic={k: v.shape for k, v in float_args.items()}, cmp=[(0, 1)])
+            r2, _ = (r1, None) if heavy else ser.request([e, s], {k: v for k, v in args.items() if k not in float_args}, symbolic={k: v.shape for k, v in float_args.items()}, cmp=[(0, 1)])
         except ValueError:
             outcome['not-serialisable'] += 1
             continue
         cases.append((e, s, args, v1)); reqs += [r1, r2]
-    ans = X.lean_requests(c, reqs)
+    # several driver processes in parallel (the evaluator is single-threaded)
+    from concurrent.futures import ThreadPoolExecutor
+    nchunks = 4 if len(reqs) < 600 else 12
+    pairs = [reqs[i:i+2] for i in range(0, len(reqs), 2)]
+    chunks = [sum(pairs[k::nchunks], []) for k in range(nchunks)]
+    with ThreadPoolExecutor(nchunks) as ex:
+        def run_chunk(ch):
+            # a chunk whose evaluation exceeds the time limit is abandoned: its trees are decided on the real code only (counted)
+            try:
+                return [({'bad': a} if a.startswith('bad-request') else json.loads(a)) for a in c.model(ch, driver='Expr', timeout=240 if c.tier == 'quick' else 480)]
+            except Infra as ex_:
+                if 'timed out' not in str(ex_): raise
+                outcome['lean-chunk-time-limit'] += len(ch) // 2
+                skip = {'results': [{'error': 'unsupported', 'what': 'lean-time-limit'}] * 2, 'cmp': ['error']}
+                return [skip] * len(ch)
+        parts = list(ex.map(run_chunk, chunks))
+    ans = [None] * len(reqs)
+    for k, part in enumerate(parts):
+        idx = [j for i in range(k, len(pairs), nchunks) for j in (2*i, 2*i+1)]
+        for j, a in zip(idx, part): ans[j] = a
     nspec = nspec_bad = nsym = nconc = 0
     for (e, s, args, v1), a1, a2 in zip(cases, ans[0::2], ans[1::2]):
         changed = s is not e
@@ -228,7 +253,7 @@ def run(c):
         else:
             continue   # unsupported / undefined: not decidable here
         verdict = None
-        if a2['cmp'] == ['same'] and meta_ok:
+        if a2['cmp'] == ['same'] and meta_ok and a2 is not a1 and json.dumps(a2) != json.dumps(a1):
             verdict = 'proved-symbolically'; nsym += 1
         elif a1['cmp'] == ['same'] and meta_ok:
             verdict = 'equal-at-sample-point'; nconc += 1
@@ -259,7 +284,7 @@ def run(c):
     if c.tier == 'quick':
         enum_stream(c, 14, (400, 700, 200, 2200))
     else:
-        enum_stream(c, 56, (400, 6000, 6000, 30000))
+        enum_stream(c, 42, (400, 4000, 3000, 15000))
     # ---- (M) the fixed-point driver itself (deep_replace_property) vs its Lean model, + memoisation consequences on real trees
     from . import c01driver
     c01driver.stream(c, 300 if c.tier == 'quick' else 4000)
